@@ -78,4 +78,6 @@ func c08(r *core.Run) {
 		Ctxs:  []string{"c1", "c2", "c3"},
 		Cfgs:  allCfgs(func(c busdrv.Cfg) bool { return !c.PanicH })}
 	seqAndStress(r, "c08", "MCBus_c05", "MCBus_c08_gen.cfg", r.Pick(300, 1500), g, r.Pick(400, 4000), r.Pick(60, 600), 808)
+	// the same on a bus with a store (persistence step, persistence timeout) and with contexts that end by deadline
+	pipeline(r, "c08", false, r.Pick(200, 2500), r.Pick(20, 250), 881, func(c busdrv.Cfg) bool { return !c.PanicH }, nil)
 }
